@@ -63,7 +63,9 @@ type w7Replica struct {
 	j      *JournalFast
 	st     *MetricsStorage
 	file   *[]byte
-	images [][]byte
+	images []w7Image
+	// recorded during Save: end offset of every WriteAt (one per chunk), content before the save
+	writeEnds []int64
 
 	// latest metric event delivered to the current MetricsStorage instance, per metric id
 	delivered map[int32]tlmetadata.Event
@@ -74,6 +76,14 @@ type w7Replica struct {
 	// names for which an index rebuild handed the name to a metric that is not its newest holder
 	rebuiltStale map[string]bool
 	reloads      int
+}
+
+// w7Image is one saved file: its content, what the file held before that save, and where each
+// chunk write of the save ended (recorded by a wrapper around the storage's WriteAt).
+type w7Image struct {
+	data []byte
+	prev []byte
+	ends []int64
 }
 
 type w7Agg struct {
@@ -248,6 +258,12 @@ func (rep *w7Replica) load(content []byte) error {
 	})
 	if rep.j != nil {
 		rep.j.metaLoader = rep.loader
+		st := rep.j.storage
+		orig := st.WriteAt
+		st.WriteAt = func(offset int64, data []byte) error {
+			rep.writeEnds = append(rep.writeEnds, offset+int64(len(data)))
+			return orig(offset, data)
+		}
 	}
 	return err
 }
@@ -560,17 +576,19 @@ func (w *w7World) save(rep *w7Replica) {
 	var ok bool
 	var ver int64
 	var err error
+	prev := append([]byte(nil), *rep.file...)
+	rep.writeEnds = rep.writeEnds[:0]
 	w.guard("save "+rep.name, func() { ok, ver, err = rep.j.Save() })
 	if err != nil {
 		w.r.Fail(w7Prop, "save_error", "save", "%s: Save failed on a healthy in-memory file: %v", rep.name, err)
 		return
 	}
 	if ok {
-		rep.images = append(rep.images, append([]byte(nil), *rep.file...))
+		rep.images = append(rep.images, w7Image{data: append([]byte(nil), *rep.file...), prev: prev, ends: append([]int64(nil), rep.writeEnds...)})
 		if len(rep.images) > 4 {
 			rep.images = rep.images[1:]
 		}
-		if len(*rep.file) > data_model.ChunkSize/2 {
+		if len(rep.writeEnds) > 1 {
 			w.r.Probe("saved_file_has_several_chunks")
 		}
 	}
@@ -588,6 +606,7 @@ func (w *w7World) restart(rep *w7Replica) {
 		}
 	}
 	var img []byte
+	var saved w7Image
 	which := "none"
 	if len(rep.images) > 0 {
 		idx := len(rep.images) - 1
@@ -596,11 +615,37 @@ func (w *w7World) restart(rep *w7Replica) {
 			w.r.Fault("restart_from_older_file")
 		}
 		which = fmt.Sprintf("%d/%d", idx+1, len(rep.images))
-		img = append([]byte(nil), rep.images[idx]...)
+		img = append([]byte(nil), rep.images[idx].data...)
+		saved = rep.images[idx]
 	}
 	damage := "intact"
 	if w.fDamage && len(img) > 0 {
-		switch c.Intn(3, "damage") {
+		mode := c.Intn(4, "damage")
+		if mode == 3 && len(saved.ends) < 2 {
+			mode = 1 // a single chunk has no inner boundary
+		}
+		switch mode {
+		case 3:
+			// the process was killed during that save, after k of its chunk writes (chunks are
+			// written one by one, Truncate comes last): the first k chunks are new, behind them is
+			// whatever the file held before - nothing when it was fresh or shorter (the file then
+			// ends exactly on a chunk boundary), old bytes when it was longer
+			k := 1 + c.Intn(len(saved.ends)-1, "chunks_written")
+			end := saved.ends[k-1]
+			prev := saved.prev
+			if c.Intn(2, "fresh_file") == 1 {
+				prev = nil
+			}
+			img = append([]byte(nil), saved.data[:end]...)
+			if int64(len(prev)) > end {
+				img = append(img, prev[end:]...)
+				damage = fmt.Sprintf("killed after %d of %d chunk writes, %d old bytes behind", k, len(saved.ends), int64(len(prev))-end)
+				w.r.Probe("partial_save_over_longer_file")
+			} else {
+				damage = fmt.Sprintf("killed after %d of %d chunk writes, file ends on the chunk boundary %d", k, len(saved.ends), end)
+				w.r.Probe("partial_save_ends_on_chunk_boundary")
+			}
+			w.r.Fault("killed_between_chunk_writes")
 		case 1:
 			cut := c.Intn(len(img), "cut_at")
 			img = img[:cut]
